@@ -662,6 +662,11 @@ class Gen:
                 if kind == 'parent_attr':
                     # the value must fit the datatype the field is built with
                     if st:
+                        # ... and stay within the positions the field's declared datatype defines: a later copy of
+                        # this field travels through text and is read back under the declared datatype, and what the
+                        # parser does with surplus components is out of regime here (as for every other text written)
+                        declared = T.datatype_struct(self.version, fref[2])
+                        st = st[:max(1, len(declared) if declared else 1)]
                         op['text'] = self.field_value(('sequence', st, op['datatype'], None, None, -1), 0, corpus._ec(0))
                     else:
                         op['text'] = gen.valid_literal('ST', self.tok, rng)
